@@ -944,6 +944,8 @@ from mlmverif.selfcheck import B, OK  # noqa: E402
 _T = 'chainables/transform.py'
 _O = 'chainables/orchestrate.py'
 VARIANTS = [
+    OK('merged-state-stored-through-a-local', 'chainables/transform.py',
+       "          states_by_fn[key] = fn_state\n", "          merged_so_far = fn_state\n          states_by_fn[key] = merged_so_far\n"),
     OK('stage-merge-through-a-local', 'chainables/orchestrate.py',
        "      agg_state = agg_fn.merge_states(agg_states)\n", "      merged_state = agg_fn.merge_states(agg_states)\n      agg_state = merged_state\n"),
     OK('next-batch-queue-through-a-local', 'chainables/courier_server.py',
